@@ -172,9 +172,10 @@ func (r *Run) Inconclusive(format string, a ...any) {
 }
 
 // Violate records a violation of the property in the current scenario.
-func (r *Run) Violate(sig, what string, desc any, trace any) {
+func (r *Run) Violate(sig, what string, desc any, traceOrFn any) {
 	r.mu.Lock()
 	defer r.mu.Unlock()
+	trace := traceOrFn
 	// keep the result file bounded: at most 40 full violations, then only counts
 	r.Res.Counters["violations_total"]++
 	r.Res.Counters["sig:"+sig]++
@@ -189,6 +190,9 @@ func (r *Run) Violate(sig, what string, desc any, trace any) {
 	}
 	if n >= 3 {
 		return
+	}
+	if f, ok := traceOrFn.(func() []string); ok {
+		trace = f()
 	}
 	r.Res.Violations = append(r.Res.Violations, Violation{Property: r.Prop, Sig: sig, What: what, Scenario: r.cur, Shard: r.Shard, Seed: r.Seed, Desc: desc, Trace: trace})
 }
